@@ -280,7 +280,8 @@ def main():
 
     # ------------------------------------------------------------------ bounded native sweep (stand-in for code outside the verifiers' reach)
     sweep_res = None
-    if cfg.get("sweep", True):
+    # developer option VERIF_SKIP_SWEEP=1 (used by the false-alarm test on behaviour-preserving patches, where only the deductive part can be affected): never set by a registered command
+    if cfg.get("sweep", True) and not os.environ.get("VERIF_SKIP_SWEEP"):
         try:
             import replay_driver
             sweep_res = replay_driver.sweep(prop)
